@@ -634,8 +634,16 @@ def read_topmatter(text: str | Iterator[str]) -> dict[str, Any] | None:
         top_matter.append(line.rstrip("\r\n") + "\n")
     try:
         metadata = yaml.safe_load("".join(top_matter))
-    except (yaml.YAMLError, ValueError, RecursionError) as err:
+    except (
+        yaml.YAMLError,
+        ValueError,
+        LookupError,
+        AttributeError,
+        RecursionError,
+    ) as err:
         # RecursionError: collections nested deeper than the recursion limit
+        # LookupError, AttributeError: PyYAML's constructors for tagged scalars,
+        # e.g. ``!!bool maybe``, ``!!int ''``, ``!!timestamp today``
         raise TopmatterReadError("Malformed YAML") from err
     if not isinstance(metadata, dict):
         raise TopmatterReadError(f"YAML is not a dict: {type(metadata)}")
